@@ -138,7 +138,14 @@ def build_dist(rng: random.Random) -> Any:
     y = pt.staple_distributed_send(y + r1, dest_rank=1, comm_tag=tags[2], stapled_to=y)
     z = pt.staple_distributed_send(pt.sum(y), dest_rank=2, comm_tag=("z", 0), stapled_to=y - 1,
                                    send_tags=frozenset({VTag(5)}))
-    return pt.make_dict_of_named_arrays({"out": z, "other": r0 + 1})
+    outs = {"out": z, "other": r0 + 1}
+    if rng.random() < 0.5:
+        # a receive whose SHAPE holds arrays (a size parameter reachable through it only)
+        mm = pt.make_size_param("mm")
+        rs = pt.make_distributed_recv(src_rank=1, comm_tag=("sym", 0), shape=(mm, 2),
+                                      dtype=np.float64)
+        outs["symrecv"] = rs * 2
+    return pt.make_dict_of_named_arrays(outs)
 
 
 def build_ladder(depth: int, rng: random.Random) -> Any:
